@@ -10,10 +10,10 @@ import (
 
 func init() {
 	register(&propCheck{
-		id:    "C18",
-		level: "other",
+		id:          "C18",
+		level:       "other",
 		explanation: "Static necessary conditions of 'subprocess results are faithful': (M1) in Execute the start message dominates the run and every path from the run to an exit passes exactly one end message carrying the run's own result; (M2) what Execute returns after the run derives from the run's result only, through the command-error conversion, and that conversion returns nil only for a nil error (or ESRCH); (M7) where the run failed and the subprocess's own context is done, Execute returns that context's error — 'an error (of context kind if it was cancelled)' — and nowhere else does anything but the run's result reach the caller; (M3) a writer that tokenises each Write call on a line separator and forwards the pieces must carry the trailing fragment from one call to the next (a field it both reads and writes) — otherwise every line that straddles two pipe reads is delivered as two messages; violated by logStreamer in the pinned sources (known finding K4: the repair needs a buffer, a flush point after Wait and a decision about an unterminated last line); (M4) the stream adapter sends each non-empty piece to exactly one of Log / LogError according to its stream flag, in a loop without early exit, and reports the whole chunk as written; stdout gets the output adapter, stderr the error adapter, both on the command's loggers; (M5) Output() returns the content of the string logger that is a member of the loggers the subprocess writes to, read after Execute returned. Decided on SSA; no process is started. Not decided: output fidelity for actual write patterns and volumes (pipe chunking at run time), exit-status values.",
-		run:   runC18,
+		run:         runC18,
 		assumptions: []string{
 			"os/exec copies everything the child writes to cmd.Stdout/cmd.Stderr in order, in arbitrary chunks",
 		},
